@@ -123,6 +123,12 @@ class DefRuntime:
                 cap = lambda: None  # noqa
                 cap._icv_c = d["c"]  # type: ignore
                 obj = ic.snapshot(cap, name="s{}".format(self.hist["con"][d["c"] - 1]["name"]))(obj)
+        if m.get("precall") and kind in ("fn", "static"):
+            # the decorated function is used once (as a plain function) before the class statement adopts it
+            self.truth = getattr(self, "truth", {}) or {}
+            out = obj(None) if kind == "fn" else obj()
+            if inspect.iscoroutine(out):
+                out.close()
         if kind == "prop":
             return property(obj)
         if kind == "static":
